@@ -171,12 +171,13 @@ func (d *decoder) decode(v interface{}) error {
 						v := instanceValue.Interface()
 						var err error
 						if tlv8 == "-" {
-							// unnamed slices are inline encoded
-							err = d.decode(v)
-							if isEmptyStruct(v) {
+							// unnamed slices are inline encoded; the list ends
+							// when there is no value left for any field of the element
+							if !d.hasValueFor(valueType.Elem()) {
 								// step out of loop
 								break
 							}
+							err = d.decode(v)
 						} else {
 							b, e := d.r.readBytes(tag)
 							if e == io.EOF {
@@ -237,6 +238,40 @@ func (d *decoder) decode(v interface{}) error {
 	}
 
 	return nil
+}
+
+// hasValueFor returns true if there is a value left for at least one
+// of the tlv8 fields of struct type t.
+func (d *decoder) hasValueFor(t reflect.Type) bool {
+	if t.Kind() == reflect.Ptr {
+		t = t.Elem()
+	}
+
+	if t.Kind() != reflect.Struct {
+		return false
+	}
+
+	for i := 0; i < t.NumField(); i++ {
+		tlv8, ok := t.Field(i).Tag.Lookup("tlv8")
+		if !ok {
+			continue
+		}
+
+		if tlv8 == "-" {
+			// inline encoded elements use the tags of their fields
+			if f := t.Field(i).Type; f.Kind() == reflect.Slice && d.hasValueFor(f.Elem()) {
+				return true
+			}
+			continue
+		}
+
+		values := strings.Split(tlv8, ",")
+		if d.r.len(uint8(to.Uint64(values[0]))) > 0 {
+			return true
+		}
+	}
+
+	return false
 }
 
 func newValueOf(t reflect.Type) reflect.Value {
